@@ -8,6 +8,17 @@ use std::hint::black_box;
 
 const LAG_PERIODICITY: usize = 4;
 
+#[cfg(feature = "verif-hooks")]
+macro_rules! vhook {
+    ($event:ident { $($field:ident : $value:expr),* }) => {
+        crate::verif::emit(crate::verif::Event::$event { $($field: $value),* })
+    };
+}
+#[cfg(not(feature = "verif-hooks"))]
+macro_rules! vhook {
+    ($event:ident { $($field:ident : $value:expr),* }) => {};
+}
+
 #[derive(Clone, Copy, Debug)]
 pub enum ParTask {
     Collect,
@@ -35,6 +46,16 @@ impl Runner {
             max_num_threads,
             chunk_size,
         }
+    }
+
+    #[cfg(feature = "verif-hooks")]
+    fn verif_begin(&self) -> crate::verif::RunCtx {
+        crate::verif::RunCtx::begin(
+            self.max_num_threads,
+            self.chunk_size.inner(),
+            matches!(self.chunk_size, ResolvedChunkSize::Exact(_)),
+            self.input_len,
+        )
     }
 
     pub fn do_spawn(&self, num_spawned: usize, has_more: HasMore) -> bool {
@@ -97,6 +118,15 @@ impl Runner {
         F: Fn(usize) + Sync,
     {
         let runner = Self::new(params, task_type, iter.try_get_len());
+        #[cfg(feature = "verif-hooks")]
+        let verif_ctx = runner.verif_begin();
+        #[cfg(feature = "verif-hooks")]
+        let verif_task = |chunk: usize| {
+            let _guard = crate::verif::WorkerGuard::new(&verif_ctx, chunk);
+            thread_task(chunk)
+        };
+        #[cfg(feature = "verif-hooks")]
+        let thread_task = &verif_task;
 
         let mut num_spawned = 0;
 
@@ -104,6 +134,7 @@ impl Runner {
             let mut chunk: usize = runner.chunk_size.inner();
             'lag_period: loop {
                 for _ in 0..LAG_PERIODICITY {
+                    vhook!(SpawnCheck { num_spawned: num_spawned });
                     match runner.do_spawn(num_spawned, iter.has_more()) {
                         false => break 'lag_period,
                         true => {
@@ -114,6 +145,7 @@ impl Runner {
                 }
 
                 lag();
+                vhook!(ChunkCheck { num_spawned: num_spawned });
                 match runner.next_chunk_size(num_spawned, iter.has_more()) {
                     None => break 'lag_period,
                     Some(c) => chunk = c,
@@ -122,6 +154,7 @@ impl Runner {
 
             s.spawn(move || thread_task(chunk));
             num_spawned += 1;
+            vhook!(SpawnerDone { num_spawned: num_spawned });
         });
 
         num_spawned
@@ -139,6 +172,15 @@ impl Runner {
         Out: Send + Sync,
     {
         let runner = Self::new(params, task_type, iter.try_get_len());
+        #[cfg(feature = "verif-hooks")]
+        let verif_ctx = runner.verif_begin();
+        #[cfg(feature = "verif-hooks")]
+        let verif_task = |chunk: usize| {
+            let _guard = crate::verif::WorkerGuard::new(&verif_ctx, chunk);
+            thread_task(chunk)
+        };
+        #[cfg(feature = "verif-hooks")]
+        let thread_task = &verif_task;
 
         let mut num_spawned = 0;
 
@@ -147,6 +189,7 @@ impl Runner {
             let mut chunk: usize = runner.chunk_size.inner();
             'lag_period: loop {
                 for _ in 0..LAG_PERIODICITY {
+                    vhook!(SpawnCheck { num_spawned: num_spawned });
                     match runner.do_spawn(num_spawned, iter.has_more()) {
                         false => break 'lag_period,
                         true => {
@@ -157,6 +200,7 @@ impl Runner {
                 }
 
                 lag();
+                vhook!(ChunkCheck { num_spawned: num_spawned });
                 match runner.next_chunk_size(num_spawned, iter.has_more()) {
                     None => break 'lag_period,
                     Some(c) => chunk = c,
@@ -165,6 +209,7 @@ impl Runner {
 
             handles.push(s.spawn(move || thread_task(chunk)));
             num_spawned += 1;
+            vhook!(SpawnerDone { num_spawned: num_spawned });
 
             let mut vec = vec![];
             for x in handles {
@@ -188,6 +233,15 @@ impl Runner {
         R: Fn(T, T) -> T,
     {
         let runner = Self::new(params, task_type, iter.try_get_len());
+        #[cfg(feature = "verif-hooks")]
+        let verif_ctx = runner.verif_begin();
+        #[cfg(feature = "verif-hooks")]
+        let verif_task = |chunk: usize| {
+            let _guard = crate::verif::WorkerGuard::new(&verif_ctx, chunk);
+            thread_task(chunk)
+        };
+        #[cfg(feature = "verif-hooks")]
+        let thread_task = &verif_task;
 
         std::thread::scope(|s| {
             let mut threads = Vec::with_capacity(runner.max_num_threads);
@@ -195,6 +249,7 @@ impl Runner {
             let mut chunk: usize = runner.chunk_size.inner();
             'lag_period: loop {
                 for _ in 0..LAG_PERIODICITY {
+                    vhook!(SpawnCheck { num_spawned: threads.len() });
                     match runner.do_spawn(threads.len(), iter.has_more()) {
                         false => break 'lag_period,
                         true => threads.push(s.spawn(move || thread_task(chunk))),
@@ -202,6 +257,7 @@ impl Runner {
                 }
 
                 lag();
+                vhook!(ChunkCheck { num_spawned: threads.len() });
                 match runner.next_chunk_size(threads.len(), iter.has_more()) {
                     None => break 'lag_period,
                     Some(c) => chunk = c,
@@ -209,6 +265,7 @@ impl Runner {
             }
 
             threads.push(s.spawn(move || thread_task(chunk)));
+            vhook!(SpawnerDone { num_spawned: threads.len() });
 
             let num_threads = threads.len();
             let result = threads
